@@ -23,6 +23,9 @@ CHECKS = {
     "C06": dict(level=MC, design="5/C06", technique="three-sorted TLA+ spec (KyberPairing: G1, G2, GT as bilinear forms) model-checked with TLC; behaviours replayed on the five pairing suites",
                 text="TLC checks bilinearity, additivity, identity and non-degeneracy on the bilinear-form model and generates all behaviours (operand classes incl. identity and generators, two pairings or GT operations, ValidatePairing) without pre-ops exhaustively and with arithmetic pre-ops by simulation; each pairing result must equal the form evaluated over four atom pairings by GT double-and-add, and ValidatePairing must equal equality of the forms.",
                 note="trusted: TLC, GT double-and-add over the library's GT Add, the four atom pairings per binding; operands are small Laurent combinations of atoms under edge-biased bindings"),
+    "C17": dict(level=MC, design="5/C17", technique="TLA+ spec of stream handles and point provenance (PickEmbed) model-checked with TLC; behaviours replayed on all groups with scripted adversarial streams; RFC 9380 vectors as fixed behaviours",
+                text="The spec makes a stream's state its whole past, so two handles with equal pasts must yield Equal points; TLC enumerates all 2-step (simulated 6-step) sequences of NewStream/CopyStream/Pick/Embed/Hash/Codec and predicts for each produced point its relation to the other register and the bytes Data must return; the replayer checks q*P=O, determinism, losslessness (also after encode/decode), distinctness, Data range errors, and the RFC 9380 vectors on every implementation.",
+                note="trusted: TLC, canonical route for q*P, blake2xb XOF as stream source, RFC vector files copied from circl testdata and the RFC appendix; collisions assumed negligible"),
 }
 
 NOT_YET = {
